@@ -20,7 +20,7 @@ RULE = (
 )
 ASSUMPTIONS = list(refcodec.TRUSTED_BASE) + ["the decoder accepts well-formed chunks the prose does not list (FLGS, SFGS, SLnK) and never demands an undocumented one"]
 REQUIRED_LABELS = {
-    "quick": ["project", "synth", "payload_nondefault", "options_set", "links", "cells", "neg_min_ctl_at_min", "metamodule_nested_2_levels", "metamodule_nested_3_levels", "written_from_loaded_and_edited_object"],
+    "quick": ["project", "synth", "payload_nondefault", "options_set", "links", "cells", "neg_min_ctl_at_min", "metamodule_nested_2_levels", "metamodule_nested_3_levels", "written_from_loaded_and_edited_object", "chunk_payload_of_64KiB_or_more"],
     "thorough": ["project", "synth", "payload_nondefault", "options_set", "links", "cells", "neg_min_ctl_at_min", "sampler_with_samples", "metamodule", "gap"] + ["type_" + t for t in build.attachable_types()],
 }
 
@@ -32,7 +32,7 @@ def exhaustive(tier):
 def plan(tier):
     n, per = (16, 120) if tier == "quick" else (16, 2000)
     types = build.attachable_types()
-    return [{"kind": "random", "examples": per, "sweep": types[i::n]} for i in range(n)] + [{"kind": "edited", "examples": 25 if tier == "quick" else 400} for _ in range(4)]
+    return [{"kind": "random", "examples": per, "sweep": types[i::n], "big": i == 0} for i in range(n)] + [{"kind": "edited", "examples": 25 if tier == "quick" else 400} for _ in range(4)]
 
 
 nested_meta = build.nested_meta
@@ -191,6 +191,14 @@ def run_shard(ctx, desc):
         if len(repr(spec)) < 2000:
             ctx.sample(spec)
 
+    # objects with large chunk payloads (64 KiB, more than 1 MiB), alone and inside a project - once per run
+    if desc.get("big"):
+        for ms in build.big_payload_module_specs():
+            ctx.case()
+            check_module_spec(ctx, ms)
+            check_project_spec(ctx, {"modules": [ms], "patterns": [], "fields": {}, "links": [["c", 1, 0]]})
+            ctx.label("chunk_payload_of_64KiB_or_more")
+            ctx.mark_nontrivial(["big", ms["type"], len(repr(ms))])
     # containers nested several levels deep (MetaModule in MetaModule in MetaModule; Sampler effects inside)
     if not run_property(ctx, nested_meta(), body_m, 10 if ctx.tier == "quick" else 60, tag="nested", bucket="synth"):
         return
